@@ -53,6 +53,10 @@ def repo_hash():
         p = os.path.join(HERE, f)
         if os.path.exists(p):
             h.update(open(p, "rb").read())
+    sd = os.path.join(HERE, "sites.d")
+    if os.path.isdir(sd):
+        for f in sorted(os.listdir(sd)):
+            h.update(open(os.path.join(sd, f), "rb").read())
     return h.hexdigest()[:20]
 
 
@@ -785,6 +789,11 @@ def main():
     key = repo_hash()
     consts, sizes = gen_layout()
     sites = json.load(open(os.path.join(HERE, "sites.json")))
+    sd = os.path.join(HERE, "sites.d")
+    if os.path.isdir(sd):
+        for f in sorted(os.listdir(sd)):
+            if f.endswith(".json"):
+                sites += json.load(open(os.path.join(sd, f)))
     filters = sorted({s["filter"] for s in sites})
     with cf.ThreadPoolExecutor(16) as ex:
         list(ex.map(lambda f: clang_docs(f, key), filters))
